@@ -711,6 +711,9 @@ def run(ctx, rep):
             (0, "register", H1, ("foo",), 1), (1, "unregister", H1, 1), (2, "register", H1, ("foo",), 1), (50, "query", H2, "foo"),
             (51, "register", H1, ("foo",), 1), (52, "query", H2, "foo")],
     }
+    histories["one server under two names refreshed at different times"] = [
+        (0, "register", H1, ("foo",), 1), (30, "register", H1, ("bar",), 1), (35, "query", H2, "foo"), (36, "query", H2, "bar"),
+        (45, "query", H2, "bar"), (51, "query", H2, "bar")]
     histories["one request naming the same service twice (case folding)"] = [
         (0, "register", H1, ("foo", "Foo", "BAR"), 1), (1, "register", H1, ("FOO", "bar"), 1), (2, "query", H2, "foo"),
         (3, "unregister", H1, 1), (4, "query", H2, "Bar")]
